@@ -29,6 +29,17 @@ Proof.
   - intros f Hin. apply G3. apply in_tl_app. exact Hin.
 Qed.
 
+(* the same for a set of ids only *)
+Definition Goods (sel : Z -> bool) (l : list sev) : Prop := forall i, sel i = true -> good i l.
+
+Lemma Goods_app sel l evs : Goods sel (l ++ evs) -> Goods sel l.
+Proof.
+  intros G i Si. destruct (G i Si) as (G1 & G2 & G3). rewrite idreads_app in *. repeat split.
+  - intros f Hin. apply G1. apply in_or_app. auto.
+  - intros f g Hf Hg. apply G2; apply in_or_app; auto.
+  - intros f Hin. apply G3. apply in_tl_app. exact Hin.
+Qed.
+
 Definition pc_end (k : hnd) : bool := match h_pc k with HUnreg | HDead => true | _ => false end.
 
 Definition PIh (s : Server.state) (h : nat) (k : hnd) : Prop :=
@@ -37,8 +48,10 @@ Definition PIh (s : Server.state) (h : nat) (k : hnd) : Prop :=
     (h_cancel k = false -> T = takes h (Server.log s) ++ qpart k ++ fpart h (rd s)) /\
     (h_cancel k = true -> is_prefix (takes h (Server.log s)) T).
 
-Definition PI (s : Server.state) : Prop :=
-  forall h k, nth_error (hs s) h = Some k -> h_unary k = false -> PIh s h k.
+(* [sel]: the stream ids concerned (a reset, a cancellation on another stream is none of their business) *)
+Definition PIs (sel : Z -> bool) (s : Server.state) : Prop :=
+  forall h k, nth_error (hs s) h = Some k -> h_unary k = false -> sel (fid (h_req k)) = true -> PIh s h k.
+Definition PI (s : Server.state) : Prop := PIs (fun _ => true) s.
 
 Definition kept (s s' : Server.state) (h : nat) (k' : hnd) : Prop :=
   exists k, nth_error (hs s) h = Some k /\ h_req k' = h_req k /\ h_unary k' = h_unary k /\ h_q k' = h_q k /\
@@ -51,16 +64,17 @@ Proof. intros [x ->]. exists (x ++ r). rewrite app_assoc. reflexivity. Qed.
 (* a rule that reads nothing and takes nothing; each stream handler is either kept (queue, cancellation, end of
    its life unchanged; the hand-off to it unchanged, or abandoned if it is cancelled) or its clause is proved
    directly *)
-Lemma PI_step s s' evs :
-  PI s ->
-  (forall h k', nth_error (hs s') h = Some k' -> h_unary k' = false -> kept s s' h k' \/ PIh s' h k') ->
-  Server.log s' = Server.log s ++ evs -> no_takes evs -> sreads evs = [] -> PI s'.
+Lemma PI_step sel s s' evs :
+  PIs sel s ->
+  (forall h k', nth_error (hs s') h = Some k' -> h_unary k' = false -> sel (fid (h_req k')) = true -> kept s s' h k' \/ PIh s' h k') ->
+  Server.log s' = Server.log s ++ evs -> no_takes evs -> sreads evs = [] -> PIs sel s'.
 Proof.
-  intros HP HK E Hnt Hsr h k' Hn Hu.
-  destruct (HK _ _ Hn Hu) as [(k & Hk & Hreq & Hun & Hq & Hc & Hpe & Hfp) | Direct]; [|exact Direct].
+  intros HP HK E Hnt Hsr h k' Hn Hu Sl.
+  destruct (HK _ _ Hn Hu Sl) as [(k & Hk & Hreq & Hun & Hq & Hc & Hpe & Hfp) | Direct]; [|exact Direct].
+  rewrite Hreq in Sl.
   assert (Eid : forall i, idreads i (Server.log s') = idreads i (Server.log s)).
   { intros i. rewrite E, idreads_app. unfold idreads at 2. rewrite Hsr. simpl. apply app_nil_r. }
-  rewrite Hun in Hu. destruct (HP _ _ Hk Hu) as (Hce & Hd & T & HT & Hb & Hcc).
+  rewrite Hun in Hu. destruct (HP _ _ Hk Hu Sl) as (Hce & Hd & T & HT & Hb & Hcc).
   unfold PIh. rewrite Hreq, Eid, Hc, Hpe. split; auto. split; auto.
   exists T. split; auto. rewrite E, takes_app, Hnt, app_nil_r.
   assert (Q : qpart k' = qpart k) by (unfold qpart; rewrite Hq; reflexivity). rewrite Q.
@@ -70,8 +84,8 @@ Qed.
 Ltac fp_same := sproj; first [ left; reflexivity | match goal with E : rd _ = _ |- _ => rewrite E; left; reflexivity end ].
 
 Ltac kept_tac :=
-  let h := fresh "hY" in let k' := fresh "kY" in let P := fresh "PY" in let U := fresh "UY" in
-  intros h k' P U; left; unfold kept; sproj;
+  let h := fresh "hY" in let k' := fresh "kY" in let P := fresh "PY" in let U := fresh "UY" in let S := fresh "SY" in
+  intros h k' P U S; left; unfold kept; sproj;
   first [ eexists; split; [exact P | repeat split; try reflexivity; fp_same]
         | apply nth_upd_cases in P; destruct P as [(-> & -> & _) | (_ & P)];
           [ eexists; split; [eassumption | repeat split; try reflexivity;
@@ -108,11 +122,11 @@ Proof.
     + intros Hf. apply is_prefix_app_r. auto.
 Qed.
 
-Lemma PI_int nw s i s' : inv nw s -> sff s -> TK s -> Good (Server.log s') -> PI s -> rule_of i s = Some s' -> PI s'.
+Lemma PI_int sel nw s i s' : inv nw s -> sff s -> TK s -> Goods sel (Server.log s') -> PIs sel s -> rule_of i s = Some s' -> PIs sel s'.
 Proof.
   intros HI F HT G HP H. destruct i; simpl in H.
   all: try solve [ start_rule H; sff_tac F;
-                   (eapply (PI_step s); [exact HP | try kept_tac | sproj; first [symmetry; apply app_nil_r | rewrite <- ?app_assoc; reflexivity]
+                   (eapply (PI_step sel s); [exact HP | try kept_tac | sproj; first [symmetry; apply app_nil_r | rewrite <- ?app_assoc; reflexivity]
                                         | try no_takes_tac | try reflexivity]) ].
   - (* r_rd_read *)
     unfold r_rd_read in H. destruct (rd s) eqn:Erd; try discriminate.
@@ -124,36 +138,40 @@ Proof.
               In f (idreads (fid f) (Server.log s'))).
     { intros evs E. rewrite E, idreads_app, idreads_snoc_read, Z.eqb_refl. apply in_or_app. left. apply in_or_app. right. left. reflexivity. }
     (* a stream handler with the frame's id that is not cancelled is registered *)
-    assert (Hregd : forall hZ kZ, nth_error (hs s) hZ = Some kZ -> h_unary kZ = false -> h_cancel kZ = false -> h_reg kZ = true).
-    { intros hZ kZ P U C. destruct (HP _ _ P U) as (Hce & _). destruct (i_h _ _ HI _ _ P) as (_ & K2 & _).
+    assert (Hregd : forall hZ kZ, nth_error (hs s) hZ = Some kZ -> h_unary kZ = false -> sel (fid (h_req kZ)) = true -> h_cancel kZ = false -> h_reg kZ = true).
+    { intros hZ kZ P U Sl C. destruct (HP _ _ P U Sl) as (Hce & _). destruct (i_h _ _ HI _ _ P) as (_ & K2 & _).
       rewrite (K2 U). unfold pc_dead. unfold pc_end in Hce. destruct (h_pc kZ); try reflexivity; congruence. }
     (* the frames read with the id of a stream handler start with its opening frame *)
-    assert (Hin0 : forall hZ kZ, nth_error (hs s) hZ = Some kZ -> h_unary kZ = false ->
+    assert (Hin0 : forall hZ kZ, nth_error (hs s) hZ = Some kZ -> h_unary kZ = false -> sel (fid (h_req kZ)) = true ->
               In (h_req kZ) (idreads (fid (h_req kZ)) (Server.log s)) /\ dispatch (h_req kZ) = DStream).
-    { intros hZ kZ P U. destruct (HP _ _ P U) as (_ & Hd & T & HT0 & _). rewrite HT0. split; [left; reflexivity | exact Hd]. }
+    { intros hZ kZ P U Sl. destruct (HP _ _ P U Sl) as (_ & Hd & T & HT0 & _). rewrite HT0. split; [left; reflexivity | exact Hd]. }
     destruct (dispatch f) eqn:Ed; inv_some H.
     + (* skipped *)
-      intros hZ kZ P U. sproj. eapply (PIh_read s _ hZ kZ f []); [apply HP; auto | exact Erd | sproj; rewrite app_nil_r; reflexivity | no_takes_tac | reflexivity | ].
+      intros hZ kZ P U Sl. sproj. eapply (PIh_read s _ hZ kZ f []); [apply HP; auto | exact Erd | sproj; rewrite app_nil_r; reflexivity | no_takes_tac | reflexivity | ].
       left. split; [|sproj; rewrite Erd; reflexivity]. intros Hid.
-      destruct (Hin0 _ _ P U) as (Hi & Hds). destruct (G (fid f)) as (_ & G2 & _).
+      assert (Sf : sel (fid f) = true) by (rewrite Hid; exact Sl).
+      destruct (Hin0 _ _ P U Sl) as (Hi & Hds). destruct (G (fid f) Sf) as (_ & G2 & _).
       assert (X : dispatch f = dispatch (h_req kZ)).
       { apply G2; [eapply (Hlog1 []); sproj; rewrite app_nil_r; reflexivity|]. sproj. rewrite idreads_app, Hid. apply in_or_app. left. exact Hi. }
       congruence.
     + (* a unary request *)
-      intros hZ kZ P U. sproj. eapply (PIh_read s _ hZ kZ f []); [apply HP; auto | exact Erd | sproj; rewrite app_nil_r; reflexivity | no_takes_tac | reflexivity | ].
+      intros hZ kZ P U Sl. sproj. eapply (PIh_read s _ hZ kZ f []); [apply HP; auto | exact Erd | sproj; rewrite app_nil_r; reflexivity | no_takes_tac | reflexivity | ].
       left. split; [|sproj; reflexivity]. intros Hid.
-      destruct (Hin0 _ _ P U) as (Hi & Hds). destruct (G (fid f)) as (_ & G2 & _).
+      assert (Sf : sel (fid f) = true) by (rewrite Hid; exact Sl).
+      destruct (Hin0 _ _ P U Sl) as (Hi & Hds). destruct (G (fid f) Sf) as (_ & G2 & _).
       assert (X : dispatch f = dispatch (h_req kZ)).
       { apply G2; [eapply (Hlog1 []); sproj; rewrite app_nil_r; reflexivity|]. sproj. rewrite idreads_app, Hid. apply in_or_app. left. exact Hi. }
       congruence.
     + (* a frame of a stream method *)
+      destruct (sel (fid f)) eqn:Sf.
+      { (* of a stream that concerns us *)
       assert (Hrst : is_rst f = false).
-      { destruct (G (fid f)) as (G1 & _). apply G1. destruct (stream_dispatch_log (add_log (set_inbox s rest) [SvRead f]) f) as (_ & _ & evs & E & _).
+      { destruct (G (fid f) Sf) as (G1 & _). apply G1. destruct (stream_dispatch_log (add_log (set_inbox s rest) [SvRead f]) f) as (_ & _ & evs & E & _).
         eapply (Hlog1 evs). rewrite E. reflexivity. }
       (* handlers with another id, and cancelled handlers, are not concerned *)
       assert (Hsame : forall hZ kZ, nth_error (hs s) hZ = Some kZ -> h_unary kZ = false -> fid (h_req kZ) = fid f -> h_cancel kZ = false ->
                 find_reg (fid f) (hs s) 0 = Some hZ).
-      { intros hZ kZ P U Hid C. pose proof (Hregd _ _ P U C) as Hr.
+      { intros hZ kZ P U Hid C. assert (Sl : sel (fid (h_req kZ)) = true) by (rewrite Hid; exact Sf). pose proof (Hregd _ _ P U Sl C) as Hr.
         destruct (find_reg (fid f) (hs s) 0) as [g|] eqn:Ef.
         - destruct (find_reg_some _ _ _ _ Ef) as (_ & kg & Hkg & Hrg & Hidg). rewrite Nat.sub_0_r in Hkg.
           f_equal. eapply (i_uniq _ _ HI g hZ kg kZ); eauto. congruence.
@@ -161,7 +179,7 @@ Proof.
       unfold stream_dispatch in *. cbn [hs add_log set_inbox] in *.
       destruct (find_reg (fid f) (hs s) 0) as [h1|] eqn:Ef.
       * rewrite Hrst. destruct (find_reg_some _ _ _ _ Ef) as (_ & k1 & Hk1 & Hr1 & Hid1). rewrite Nat.sub_0_r in Hk1.
-        intros hZ kZ P U. sproj. eapply (PIh_read s _ hZ kZ f []); [apply HP; auto | exact Erd | sproj; rewrite app_nil_r; reflexivity | no_takes_tac | reflexivity | ].
+        intros hZ kZ P U Sl. sproj. eapply (PIh_read s _ hZ kZ f []); [apply HP; auto | exact Erd | sproj; rewrite app_nil_r; reflexivity | no_takes_tac | reflexivity | ].
         sproj. destruct (Z.eq_dec (fid f) (fid (h_req kZ))) as [Hid | Hne].
         -- destruct (h_cancel kZ) eqn:C; [right; left; reflexivity|]. right. right. split; auto.
            pose proof (Hsame _ _ P U (eq_sym Hid) C) as X. inversion X; subst. reflexivity.
@@ -173,8 +191,8 @@ Proof.
         { intros hZ kZ P U. destruct (Z.eq_dec (fid f) (fid (h_req kZ))) as [Hid | Hne]; auto.
           destruct (h_cancel kZ) eqn:C; auto. pose proof (Hsame _ _ P U (eq_sym Hid) C) as X. discriminate X. }
         assert (Hgen : forall s2 evs, hs s2 = hs s -> (forall h0, fpart h0 (rd s2) = []) ->
-                  Server.log s2 = (Server.log s ++ [SvRead f]) ++ evs -> no_takes evs -> sreads evs = [] -> PI s2).
-        { intros s2 evs E2 Efp El Hnt Hsr hZ kZ P U. rewrite E2 in P.
+                  Server.log s2 = (Server.log s ++ [SvRead f]) ++ evs -> no_takes evs -> sreads evs = [] -> PIs sel s2).
+        { intros s2 evs E2 Efp El Hnt Hsr hZ kZ P U Sl. rewrite E2 in P.
           eapply (PIh_read s _ hZ kZ f evs); [apply HP; auto | exact Erd | exact El | exact Hnt | exact Hsr | ].
           destruct (Hold _ _ P U) as [X | X]; [left; split; auto | right; left; exact X]. }
         rewrite Hrst in *.
@@ -186,22 +204,50 @@ Proof.
         set (ev := SvInvoke (length (hs s)) false (fid f) (f_mth f) 0 (md_tok f)) in *.
         assert (Hempty : idreads (fid f) (Server.log s) = []).
         { destruct (idreads (fid f) (Server.log s)) as [|x l0] eqn:E0; auto. exfalso.
-          destruct (G (fid f)) as (_ & _ & G3). assert (X : opener f = false); [|congruence]. apply G3.
+          destruct (G (fid f) Sf) as (_ & _ & G3). assert (X : opener f = false); [|congruence]. apply G3.
           sproj. rewrite idreads_app, idreads_snoc_read, E0, Z.eqb_refl. simpl. apply in_or_app. left. apply in_or_app. right. left. reflexivity. }
-        intros hZ kZ P U. sproj. apply nth_app_new in P. destruct P as [P | (-> & ->)].
+        intros hZ kZ P U Sl. sproj. apply nth_app_new in P. destruct P as [P | (-> & ->)].
         -- eapply (PIh_read s _ hZ kZ f [ev]); [apply HP; auto | exact Erd | sproj; reflexivity | no_takes_tac | reflexivity | ].
            left. split; [|sproj; rewrite Erd; reflexivity]. intros Hid.
-           destruct (Hin0 _ _ P U) as (Hi & _). rewrite <- Hid, Hempty in Hi. destruct Hi.
+           destruct (Hin0 _ _ P U Sl) as (Hi & _). rewrite <- Hid, Hempty in Hi. destruct Hi.
         -- unfold PIh. sproj. simpl. split; [reflexivity|]. split; [exact Ed|]. exists [].
            subst ev. rewrite idreads_app, idreads_snoc_read, Hempty, Z.eqb_refl. unfold idreads. simpl. split; [reflexivity|]. split; [|discriminate].
-           intros _. rewrite !takes_app, (takes_fresh s HT), Erd. reflexivity.
+           intros _. rewrite !takes_app, (takes_fresh s HT), Erd. reflexivity. }
+      (* of a stream that is none of our business: every handler concerned carries another id *)
+      assert (Hne : forall hZ kZ, nth_error (hs s) hZ = Some kZ -> sel (fid (h_req kZ)) = true -> fid f <> fid (h_req kZ)).
+      { intros hZ kZ P Sl Hid. rewrite <- Hid in Sl. congruence. }
+      assert (Hgen : forall s2 evs, hs s2 = hs s -> (forall hZ kZ, nth_error (hs s) hZ = Some kZ -> sel (fid (h_req kZ)) = true -> fpart hZ (rd s2) = []) ->
+                Server.log s2 = (Server.log s ++ [SvRead f]) ++ evs -> no_takes evs -> sreads evs = [] -> PIs sel s2).
+      { intros s2 evs E2 Efp El Hnt Hsr hZ kZ P U Sl. rewrite E2 in P.
+        eapply (PIh_read s _ hZ kZ f evs); [apply HP; auto | exact Erd | exact El | exact Hnt | exact Hsr | ].
+        left. split; [apply (Hne _ _ P Sl) | apply (Efp _ _ P Sl)]. }
+      unfold stream_dispatch in *. cbn [hs add_log set_inbox] in *.
+      destruct (find_reg (fid f) (hs s) 0) as [h1|] eqn:Ef.
+      * destruct (find_reg_some _ _ _ _ Ef) as (_ & k1 & Hk1 & Hr1 & Hid1). rewrite Nat.sub_0_r in Hk1.
+        destruct (is_rst f).
+        -- rewrite Hk1. intros hZ kZ P U Sl. sproj. apply nth_upd_cases in P. destruct P as [(-> & -> & _) | (Hn1 & P)].
+           ++ exfalso. simpl in Sl. rewrite Hid1 in Sl. congruence.
+           ++ eapply (PIh_read s _ hZ kZ f []); [apply HP; auto | exact Erd | sproj; rewrite app_nil_r; reflexivity | no_takes_tac | reflexivity | ].
+              left. split; [apply (Hne _ _ P Sl) | sproj; rewrite Erd; reflexivity].
+        -- apply (Hgen _ []); [reflexivity | | sproj; rewrite app_nil_r; reflexivity | no_takes_tac | reflexivity].
+           intros hZ kZ P Sl. sproj. simpl. destruct (Nat.eqb_spec h1 hZ) as [->|_]; [|reflexivity].
+           exfalso. rewrite Hk1 in P. inversion P; subst. rewrite Hid1 in Sl. congruence.
+      * destruct (is_rst f); [apply (Hgen _ []); [reflexivity | intros; sproj; rewrite Erd; reflexivity | sproj; rewrite app_nil_r; reflexivity | no_takes_tac | reflexivity]|].
+        destruct (has_body f) eqn:Hb; [apply (Hgen _ []); [reflexivity | intros; reflexivity | sproj; rewrite app_nil_r; reflexivity | no_takes_tac | reflexivity]|].
+        destruct (has_trl f) eqn:Htr; [apply (Hgen _ []); [reflexivity | intros; sproj; rewrite Erd; reflexivity | sproj; rewrite app_nil_r; reflexivity | no_takes_tac | reflexivity]|].
+        destruct (md_bad f) eqn:Hmd; [apply (Hgen _ []); [reflexivity | intros; reflexivity | sproj; rewrite app_nil_r; reflexivity | no_takes_tac | reflexivity]|].
+        set (ev := SvInvoke (length (hs s)) false (fid f) (f_mth f) 0 (md_tok f)) in *.
+        intros hZ kZ P U Sl. sproj. apply nth_app_new in P. destruct P as [P | (-> & ->)].
+        -- eapply (PIh_read s _ hZ kZ f [ev]); [apply HP; auto | exact Erd | sproj; reflexivity | no_takes_tac | reflexivity | ].
+           left. split; [apply (Hne _ _ P Sl) | sproj; rewrite Erd; reflexivity].
+        -- exfalso. simpl in Sl. congruence.
 
   - (* r_rd_offer: at most a unary handler is appended *)
     unfold r_rd_offer in H. destruct (rd s) eqn:Erd; try discriminate.
     destruct (find_idle (wk s) 0) as [w|]; [|discriminate]. inv_some H.
     destruct (start_unary_log (add_log (set_rd s RdRead) [SvJob w f]) w f) as (_ & _ & evs & E & Hev).
-    eapply (PI_step s _ ([SvJob w f] ++ evs)); [exact HP | | rewrite E; unfold add_log, set_rd; cbn [Server.log]; rewrite <- app_assoc; reflexivity | | ].
-    + intros hZ kZ P U. left. unfold start_unary in P.
+    eapply (PI_step sel s _ ([SvJob w f] ++ evs)); [exact HP | | rewrite E; unfold add_log, set_rd; cbn [Server.log]; rewrite <- app_assoc; reflexivity | | ].
+    + intros hZ kZ P U Sl. left. unfold start_unary in P.
       assert (Rd : rd (start_unary (add_log (set_rd s RdRead) [SvJob w f]) w f) = RdRead).
       { unfold start_unary. destruct (negb (has_hdr f)); [reflexivity|]. destruct (md_bad f); [reflexivity|]. destruct (body_tok f <? 0); reflexivity. }
       assert (Fp : fpart hZ (rd (start_unary (add_log (set_rd s RdRead) [SvJob w f]) w f)) = fpart hZ (rd s)) by (rewrite Rd, Erd; reflexivity).
@@ -214,9 +260,9 @@ Proof.
       destruct (Hev e (or_introl eq_refl)) as (? & ? & ? & ? & ? & ? & ->). simpl. apply IH. intros e0 Hin. apply Hev. right. exact Hin.
   - (* r_rd_fwd_enq: the frame being handed over enters the queue *)
     start_rule H. rename Heqr into Erd. rename Heqo into Hn. rename Heqo0 into Hq.
-    eapply (PI_step s _ [SvFwd h f]); [exact HP | | sproj; reflexivity | no_takes_tac | reflexivity].
-    intros hZ kZ P U. sproj. apply nth_upd_cases in P. destruct P as [(-> & -> & _) | (Hne & P)].
-    + right. simpl in U. destruct (HP _ _ Hn U) as (Hce & Hd & T & HT0 & Hb & Hcc).
+    eapply (PI_step sel s _ [SvFwd h f]); [exact HP | | sproj; reflexivity | no_takes_tac | reflexivity].
+    intros hZ kZ P U Sl. sproj. apply nth_upd_cases in P. destruct P as [(-> & -> & _) | (Hne & P)].
+    + right. simpl in U. destruct (HP _ _ Hn U Sl) as (Hce & Hd & T & HT0 & Hb & Hcc).
       unfold PIh. sproj. simpl. split; auto. split; auto. exists T. rewrite takes_app, idreads_app. simpl takes. unfold idreads at 2. simpl.
       rewrite !app_nil_r. split; auto. split.
       * intros Hf. rewrite (Hb Hf), Erd. unfold qpart. simpl. rewrite Hq. simpl. rewrite Nat.eqb_refl. reflexivity.
@@ -226,30 +272,30 @@ Proof.
     start_rule H. rename Heqr into Erd. rename Heqo into Hn.
     assert (Hc : h_cancel h0 = true).
     { destruct (sff_fields _ F) as (_ & _ & _ & _ & _ & _ & _ & _ & Fc). unfold hdone in Heqb. rewrite Fc, orb_false_r in Heqb. exact Heqb. }
-    eapply (PI_step s _ [SvDrop h f]); [exact HP | | sproj; reflexivity | no_takes_tac | reflexivity].
-    intros hZ kZ P U. sproj. left. exists kZ. repeat split; auto. rewrite Erd. simpl.
+    eapply (PI_step sel s _ [SvDrop h f]); [exact HP | | sproj; reflexivity | no_takes_tac | reflexivity].
+    intros hZ kZ P U Sl. sproj. left. exists kZ. repeat split; auto. rewrite Erd. simpl.
     destruct (Nat.eqb_spec h hZ) as [->|_]; [right; split; auto; rewrite Hn in P; inversion P; subst; exact Hc | left; reflexivity].
   - (* r_h_recv: the queued frame is taken *)
     start_rule H. rename Heqo into Hn. rename Heqo0 into Hq. rename Heqh1 into Hpc.
-    intros hZ kZ P U. sproj. unfold PIh. sproj. rewrite takes_app, idreads_app. unfold idreads at 2. simpl sreads. simpl filter. rewrite app_nil_r.
+    intros hZ kZ P U Sl. sproj. unfold PIh. sproj. rewrite takes_app, idreads_app. unfold idreads at 2. simpl sreads. simpl filter. rewrite app_nil_r.
     apply nth_upd_cases in P. destruct P as [(-> & -> & _) | (Hne & P)].
-    + simpl in U. destruct (HP _ _ Hn U) as (Hce & Hd & T & HT0 & Hb & Hcc). simpl.
+    + simpl in U. destruct (HP _ _ Hn U Sl) as (Hce & Hd & T & HT0 & Hb & Hcc). simpl.
       rewrite Nat.eqb_refl. unfold pc_end in *. rewrite Hpc in Hce. simpl.
       split; [exact Hce|]. split; [exact Hd|]. exists T. split; [exact HT0|]. split.
       * intros Hf. rewrite (Hb Hf). unfold qpart. simpl. rewrite Hq. simpl. rewrite <- app_assoc. reflexivity.
       * intros Hf. congruence.
-    + destruct (HP _ _ P U) as (Hce & Hd & T & HT0 & Hb & Hcc). simpl.
+    + destruct (HP _ _ P U Sl) as (Hce & Hd & T & HT0 & Hb & Hcc). simpl.
       destruct (Nat.eqb_spec h hZ) as [->|_]; [contradiction|]. rewrite app_nil_r.
       split; auto. split; auto. exists T. auto.
   - (* r_h_send: the writer takes the handler's frame; a trailer ends the handler's life *)
     unfold r_h_send in H. destruct (nth_error (hs s) h) as [k|] eqn:Hn; [|discriminate].
     destruct (wr s) eqn:Ewr; try discriminate. destruct (h_pc k) eqn:Hpc; try discriminate.
     destruct k0; inv_some H.
-    + eapply (PI_step s); [exact HP | kept_tac | sproj; reflexivity | no_takes_tac | reflexivity].
-    + eapply (PI_step s); [exact HP | kept_tac | sproj; reflexivity | no_takes_tac | reflexivity].
-    + eapply (PI_step s _ [SvTaken f]); [exact HP | | sproj; reflexivity | no_takes_tac | reflexivity].
-      intros hZ kZ P U. sproj. apply nth_upd_cases in P. destruct P as [(-> & -> & _) | (Hne & P)].
-      * right. simpl in U. destruct (HP _ _ Hn U) as (Hce & Hd & T & HT0 & Hb & Hcc).
+    + eapply (PI_step sel s); [exact HP | kept_tac | sproj; reflexivity | no_takes_tac | reflexivity].
+    + eapply (PI_step sel s); [exact HP | kept_tac | sproj; reflexivity | no_takes_tac | reflexivity].
+    + eapply (PI_step sel s _ [SvTaken f]); [exact HP | | sproj; reflexivity | no_takes_tac | reflexivity].
+      intros hZ kZ P U Sl. sproj. apply nth_upd_cases in P. destruct P as [(-> & -> & _) | (Hne & P)].
+      * right. simpl in U. destruct (HP _ _ Hn U Sl) as (Hce & Hd & T & HT0 & Hb & Hcc).
         unfold pc_end in Hce. rewrite Hpc in Hce.
         unfold PIh. sproj. simpl. split; [reflexivity|]. split; [exact Hd|]. exists T.
         rewrite takes_app, idreads_app. simpl takes. unfold idreads at 2. simpl. rewrite !app_nil_r. split; [exact HT0|]. split; [discriminate|].
@@ -263,14 +309,23 @@ Proof.
     destruct (h_unary k) eqn:Hun.
     + (* a unary handler is never in HInSend *)
       exfalso. destruct (i_h _ _ HI _ _ Hn) as (K1 & _). destruct (K1 Hun) as (_ & [X | [X | X]]); congruence.
-    + exfalso. destruct (HP _ _ Hn Hun) as (Hce & _). unfold pc_end in Hce. rewrite Hpc in Hce. congruence.
+    + destruct (sel (fid (h_req k))) eqn:Sk.
+      { exfalso. destruct (HP _ _ Hn Hun Sk) as (Hce & _). unfold pc_end in Hce. rewrite Hpc in Hce. congruence. }
+      (* a cancelled handler of a stream that is none of our business gives up *)
+      assert (Kh : forall s2 k2, hs s2 = upd h k2 (hs s) -> h_req k2 = h_req k -> rd s2 = rd s ->
+                   forall hZ kZ, nth_error (hs s2) hZ = Some kZ -> sel (fid (h_req kZ)) = true -> kept s s2 hZ kZ).
+      { intros s2 k2 E2 Er2 Er hZ kZ P Sl. rewrite E2 in P. apply nth_upd_cases in P. destruct P as [(-> & -> & _) | (_ & P)].
+        - rewrite Er2 in Sl. congruence.
+        - apply kept_same; auto. }
+      destruct k0; destr_in H; inv_some H;
+        (eapply (PI_step sel s); [exact HP | | sproj; reflexivity | no_takes_tac | reflexivity];
+         intros hZ kZ P U Sl; left; eapply Kh; [reflexivity | reflexivity | reflexivity | exact P | exact Sl]).
   - (* r_h_unreg: the entry found under the id is the handler's own *)
     unfold r_h_unreg in H. destruct (nth_error (hs s) h) as [k|] eqn:Hn; [|discriminate].
     destruct (h_pc k) eqn:Hpc; try discriminate. destruct (mu_free s); [|discriminate].
     destruct (i_h _ _ HI _ _ Hn) as (K1 & K2 & _).
     destruct (h_unary k) eqn:Hun.
     { exfalso. destruct (K1 eq_refl) as (_ & [X | [X | X]]); congruence. }
-    destruct (HP _ _ Hn Hun) as (Hce & _). unfold pc_end in Hce. rewrite Hpc in Hce.
     assert (Hreg : h_reg k = true) by (rewrite (K2 eq_refl); unfold pc_dead; rewrite Hpc; reflexivity).
     assert (Kh : forall s2, hs s2 = upd h (hset_pc k HDead) (hs s) -> rd s2 = rd s ->
                  forall hZ kZ, nth_error (hs s2) hZ = Some kZ -> kept s s2 hZ kZ).
@@ -286,30 +341,31 @@ Proof.
           rewrite nth_upd_other in Hg by auto. apply n. eapply (i_uniq _ _ HI g h kg k); eauto. }
         subst g. unfold set_h, set_hs in Hg; cbn [hs] in Hg. rewrite nth_upd_same in Hg by (eapply nth_error_lt; eauto).
         inversion Hg; subst kg; clear Hg.
-        eapply (PI_step s _ [SvUnreg h]); [exact HP | | sproj; reflexivity | no_takes_tac | reflexivity].
-        intros hZ kZ P U. left. sproj. rewrite upd_upd in P. apply nth_upd_cases in P. destruct P as [(-> & -> & _) | (_ & P)].
-        -- exists k. simpl. repeat split; auto. unfold pc_end. simpl. rewrite Hpc. reflexivity.
+        eapply (PI_step sel s _ [SvUnreg h]); [exact HP | | sproj; reflexivity | no_takes_tac | reflexivity].
+        intros hZ kZ P U Sl. left. sproj. rewrite upd_upd in P. apply nth_upd_cases in P. destruct P as [(-> & -> & _) | (_ & P)].
+        -- simpl in Sl. destruct (HP _ _ Hn Hun Sl) as (Hce & _). unfold pc_end in Hce. rewrite Hpc in Hce.
+           exists k. simpl. repeat split; auto. unfold pc_end. simpl. rewrite Hpc. reflexivity.
         -- exists kZ. repeat split; auto.
-      * eapply (PI_step s _ []); [exact HP | | sproj; symmetry; apply app_nil_r | no_takes_tac | reflexivity].
-        intros hZ kZ P U. left. eapply Kh; eauto; reflexivity.
-    + inv_some H. eapply (PI_step s _ []); [exact HP | | sproj; symmetry; apply app_nil_r | no_takes_tac | reflexivity].
-      intros hZ kZ P U. left. eapply Kh; eauto; reflexivity.
+      * eapply (PI_step sel s _ []); [exact HP | | sproj; symmetry; apply app_nil_r | no_takes_tac | reflexivity].
+        intros hZ kZ P U Sl. left. eapply Kh; eauto; reflexivity.
+    + inv_some H. eapply (PI_step sel s _ []); [exact HP | | sproj; symmetry; apply app_nil_r | no_takes_tac | reflexivity].
+      intros hZ kZ P U Sl. left. eapply Kh; eauto; reflexivity.
   - (* r_rd_cws_pick: serve has not returned *)
     exfalso. unfold r_rd_cws_pick in H. destruct (rd s) eqn:Erd; try discriminate.
     pose proof (i_exit_rd _ _ HI) as X. unfold rd_exited in X. rewrite Erd in X.
     destruct (sff_fields _ F) as (_ & _ & _ & _ & _ & _ & F7 & _). congruence.
 Qed.
 
-Lemma PI_ext s a : PI s -> env_ok a = true -> PI (Server.ext s a).
+Lemma PI_ext sel s a : PIs sel s -> env_ok a = true -> PIs sel (Server.ext s a).
 Proof.
   intros HP Ha. destruct a; try discriminate Ha; simpl.
-  - eapply (PI_step s _ []); [exact HP | kept_tac | sproj; symmetry; apply app_nil_r | no_takes_tac | reflexivity].
+  - eapply (PI_step sel s _ []); [exact HP | kept_tac | sproj; symmetry; apply app_nil_r | no_takes_tac | reflexivity].
   - destruct (nth_error (hs s) h) as [k|] eqn:Hn; [|exact HP]. destruct (h_pc k) eqn:Hg; try exact HP.
     destruct (hstep_shape s h k o Hn Hg) as (k' & Hhs & Hu & _ & Hc & _ & Hreq & Hq & _ & Hst).
     destruct (hstep_log s h k o) as (evs & Elog & Hev).
     destruct (hstep_rd_crashed s h k o) as [Erd _].
-    eapply (PI_step s _ evs); [exact HP | | exact Elog | | ].
-    + intros hZ kZ P U. left. rewrite Hhs in P. apply nth_upd_cases in P. destruct P as [(-> & -> & _) | (_ & P)].
+    eapply (PI_step sel s _ evs); [exact HP | | exact Elog | | ].
+    + intros hZ kZ P U Sl. left. rewrite Hhs in P. apply nth_upd_cases in P. destruct P as [(-> & -> & _) | (_ & P)].
       * exists k. repeat split; auto.
         -- unfold pc_end. rewrite Hg. rewrite Hu in U. destruct (Hst U) as (A & B). destruct (h_pc k'); try reflexivity; congruence.
         -- left. rewrite Erd. reflexivity.
@@ -319,15 +375,15 @@ Proof.
       destruct e; try contradiction; simpl; apply IH; intros; apply Hev; right; auto.
 Qed.
 
-Lemma PI_init nw : PI (init_n nw).
+Lemma PI_init sel nw : PIs sel (init_n nw).
 Proof. intros h k P. destruct h; discriminate. Qed.
 
-(* over runs without injected fault, for a peer that respects the per-stream shape *)
-Theorem PI_reach nw ls : forall s, Server.lrun (init_n nw) ls = Some s -> forallb lbl_ok ls = true ->
-  Good (Server.log s) -> PI s.
+(* over runs without injected fault, for a peer that respects the per-stream shape on the streams concerned *)
+Theorem PIs_reach sel nw ls : forall s, Server.lrun (init_n nw) ls = Some s -> forallb lbl_ok ls = true ->
+  Goods sel (Server.log s) -> PIs sel s.
 Proof.
   intros s H Hl.
-  assert (G : inv nw s /\ sff s /\ TK s /\ (Good (Server.log s) -> PI s)); [|tauto].
+  assert (G : inv nw s /\ sff s /\ TK s /\ (Goods sel (Server.log s) -> PIs sel s)); [|tauto].
   revert s H Hl. induction ls as [|l ls IH] using rev_ind; intros s H Hl.
   - inversion H; subst. split; [apply inv_init|]. split; [apply sff_init|]. split; [apply TK_init | intros _; apply PI_init].
   - rewrite forallb_app in Hl. apply andb_prop in Hl. destruct Hl as [Hl1 Hl2]. simpl in Hl2. rewrite andb_true_r in Hl2.
@@ -339,10 +395,14 @@ Proof.
       intros G. apply PI_ext; auto. apply HJ.
       destruct a; simpl in G; try exact G; try discriminate Hl2.
       destruct (nth_error (hs s0) h) as [k|]; [|exact G]. destruct (h_pc k); try exact G.
-      destruct (hstep_log s0 h k o) as (evs & E & _). rewrite E in G. eapply Good_app; eauto.
+      destruct (hstep_log s0 h k o) as (evs & E & _). rewrite E in G. eapply Goods_app; eauto.
     + destruct (nth_error (Server.rules s0) n) as [r|] eqn:En; [|discriminate].
       apply nth_error_In in En. apply rules_cases in En. destruct En as [i ->].
       split; [eapply inv_int; eauto|]. split; [eapply sff_int; eauto|]. split; [eapply TK_int; eauto|].
       intros G. eapply PI_int; eauto. apply HJ.
-      destruct (sstep_int _ _ _ E1) as (evs & E & _). rewrite E in G. eapply Good_app; eauto.
+      destruct (sstep_int _ _ _ E1) as (evs & E & _). rewrite E in G. eapply Goods_app; eauto.
 Qed.
+
+Theorem PI_reach nw ls : forall s, Server.lrun (init_n nw) ls = Some s -> forallb lbl_ok ls = true ->
+  Good (Server.log s) -> PI s.
+Proof. intros s H Hl G. apply (PIs_reach _ _ _ _ H Hl). intros i _. apply G. Qed.
